@@ -31,6 +31,7 @@ toy_field!(C101, F101, "101", "2");
 toy_field!(C107, F107, "107", "2");
 toy_field!(C251, F251, "251", "6");
 toy_field!(C65521, F65521, "65521", "17");
+toy_field!(C65537, F65537, "65537", "3"); // Fermat prime: two-adicity 16
 
 // ---- Fp2 over F7 with beta = -1 (7 = 3 mod 4), Fp2 over F13 with beta = 2 (general branch), Fp3 over F7 with beta = 2
 pub struct F7x2;
